@@ -1054,31 +1054,88 @@ theorem entStep_key (w : Bool) (st : EntSt) (k v : Str) (h : KeyNameOK k = true)
     simpa [KV.fname, KV.name] using h.2
   simp [entStep, h1, h2]
 
-theorem replace_names : ∀ n, n < 100 →
-    (lower (lit "replace" ++ pad2 (showNat n)) == lit "id") = false ∧
-    (lit "replace").isPrefixOf (lower (lit "replace" ++ pad2 (showNat n))) = true ∧
-    parseInt? (last2 (lower (lit "replace" ++ pad2 (showNat n)))) = some (Int.ofNat n) := by
-  decide +kernel
+theorem toLower_of_isDigit (c : Char) (h : c.isDigit = true) : c.toLower = c := by
+  simp only [Char.isDigit, Bool.and_eq_true, decide_eq_true_eq] at h
+  unfold Char.toLower
+  have : ¬ (c.val ≥ 65 ∧ c.val ≤ 90) := by
+    intro ⟨h1, h2⟩
+    have h3 : c.val ≤ 57 := h.2
+    have : (65 : UInt32) ≤ 57 := UInt32.le_trans h1 h3
+    exact absurd this (by decide)
+  simp only [ge_iff_le] at this
+  simp [this]
 
-def FixOK (f : Fix) : Bool :=
-  decide (0 ≤ f.id) && decide (f.id < 100) && !f.var.contains ' ' && f.var.head? != some '$'
+theorem lower_showInt (i : Int) : lower (showInt i) = showInt i := by
+  unfold lower
+  have : ∀ c ∈ showInt i, c.toLower = c := by
+    intro c hc
+    rcases showInt_chars i c hc with h | rfl
+    · exact toLower_of_isDigit c h
+    · rfl
+  have := List.map_congr_left (l := showInt i) (f := Char.toLower) (g := id) this
+  simpa using this
+
+theorem lower_pad2_showInt (i : Int) : lower (pad2 (showInt i)) = pad2 (showInt i) := by
+  unfold pad2
+  split
+  · show lower ('0' :: showInt i) = _
+    simp only [lower, List.map_cons] 
+    have := lower_showInt i
+    simp only [lower] at this
+    rw [this]; rfl
+  · exact lower_showInt i
+
+theorem parseInt_pad2 (i : Int) : parseInt? (pad2 (showInt i)) = some i := by
+  unfold pad2
+  split
+  · rename_i hlen
+    cases i with
+    | ofNat n =>
+      have hp := parseNat_showNat n
+      have hd := showNat_all_digit n
+      simp only [showInt] at hlen ⊢
+      unfold parseInt?
+      have hpn : parseNat? ('0' :: showNat n) = some n := by
+        unfold parseNat? at hp ⊢
+        have hne : (showNat n).isEmpty = false := by
+          cases h : showNat n with
+          | nil => exact absurd h (showNat_ne_nil n)
+          | cons a b => rfl
+        simp only [hd, hne, Bool.not_false, Bool.and_self, if_true, Option.some.injEq] at hp
+        have h0 : ('0' : Char).isDigit = true := by decide
+        simp only [List.isEmpty_cons, Bool.not_false, List.all_cons, h0, hd, Bool.and_self, if_true, Option.some.injEq]
+        rw [Nat.ofDigitChars_cons]
+        simpa using hp
+      simp [hpn]
+    | negSucc n =>
+      exfalso
+      simp only [showInt, List.length_cons] at hlen
+      have := showNat_ne_nil (n + 1)
+      cases h : showNat (n + 1) with
+      | nil => exact this h
+      | cons a b => rw [h] at hlen; simp only [List.length_cons] at hlen; omega
+  · exact parseInt_showInt i
+
+def FixOK (f : Fix) : Bool := !f.var.contains ' ' && f.var.head? != some '$'
 
 theorem entStep_fix (w : Bool) (st : EntSt) (f : Fix) (h : FixOK f = true) :
     entStep w st (exportFix f) = .ok { st with fixup := st.fixup ++ [f] } := by
   cases f with
   | mk var value id =>
-  simp only [FixOK, Bool.and_eq_true, decide_eq_true_eq, Bool.not_eq_true', bne_iff_ne, ne_eq] at h
-  obtain ⟨⟨⟨h0, h1⟩, hsp⟩, hd⟩ := h
-  obtain ⟨n, rfl⟩ : ∃ n : Nat, id = Int.ofNat n := ⟨id.toNat, by simp; omega⟩
-  have hn100 : n < 100 := Int.ofNat_lt.mp h1
-  obtain ⟨r1, r2, r3⟩ := replace_names n hn100
-  have hexp : exportFix ⟨var, value, Int.ofNat n⟩
-      = KV.leaf (lit "replace" ++ pad2 (showNat n)) ('$' :: (var ++ ' ' :: value)) := rfl
+  simp only [FixOK, Bool.and_eq_true, Bool.not_eq_true', bne_iff_ne, ne_eq] at h
+  obtain ⟨hsp, hd⟩ := h
+  have hexp : exportFix ⟨var, value, id⟩
+      = KV.leaf (lit "replace" ++ pad2 (showInt id)) ('$' :: (var ++ ' ' :: value)) := rfl
   rw [hexp]
-  have hname : named "id" (KV.leaf (lit "replace" ++ pad2 (showNat n)) ('$' :: (var ++ ' ' :: value))) = false := by
-    simp only [named, KV.fname, KV.name]
+  have hlow : lower (lit "replace" ++ pad2 (showInt id)) = lit "replace" ++ pad2 (showInt id) := by
+    rw [lower_append, lower_pad2_showInt]
+    have : lower (lit "replace") = lit "replace" := by decide
+    rw [this]
+  have hname : named "id" (KV.leaf (lit "replace" ++ pad2 (showInt id)) ('$' :: (var ++ ' ' :: value))) = false := by
+    simp only [named, KV.fname, KV.name, hlow]
     have : lower "id".toList = lit "id" := by decide
-    rw [this]; exact r1
+    rw [this]
+    simp [lit]
   have hsplit : splitFirst ' ' ('$' :: (var ++ ' ' :: value)) [] = ('$' :: var, some value) := by
     have hns : ' ' ∉ ('$' :: var) := by
       simp only [List.mem_cons, not_or]
@@ -1095,13 +1152,15 @@ theorem entStep_fix (w : Bool) (st : EntSt) (f : Fix) (h : FixOK f = true) :
       simp [lstripC, List.dropWhile, hc]
   unfold entStep
   simp only [hname, Bool.false_and, Bool.false_eq_true, if_false]
-  have hf : (KV.leaf (lit "replace" ++ pad2 (showNat n)) ('$' :: (var ++ ' ' :: value))).fname
-      = lower (lit "replace" ++ pad2 (showNat n)) := rfl
-  rw [hf, r2]
-  simp only [if_true, r3, fixOfLeaf, hsplit, hstrip, Option.getD_some]
-
-
-
+  have hf : (KV.leaf (lit "replace" ++ pad2 (showInt id)) ('$' :: (var ++ ' ' :: value))).fname
+      = lit "replace" ++ pad2 (showInt id) := hlow
+  rw [hf]
+  have hpre : (lit "replace").isPrefixOf (lit "replace" ++ pad2 (showInt id)) = true := by
+    simp [List.isPrefixOf_iff_prefix]
+  have hdrop : (lit "replace" ++ pad2 (showInt id)).drop 7 = pad2 (showInt id) := by
+    simp [lit]
+  rw [hpre, hdrop, parseInt_pad2]
+  simp only [if_true, fixOfLeaf, hsplit, hstrip, Option.getD_some]
 
 theorem entStep_solid (mb w : Bool) (st : EntSt) (s : Solid) (h : SolidOK1 s = true) :
     entStep w st (exportSolid mb w s) = .ok { st with solids := st.solids ++ [solidRT w s.hidden s] } := by
